@@ -782,3 +782,8 @@ PROOF_MODULES = PROOF_MODULES + ['Compute.Props.RoundingLU', 'Compute.Lemmas.Fac
 REQUIRED_THEOREMS = REQUIRED_THEOREMS + ['Cv.RoundingLU.cholesky_backward_error', 'Cv.RoundingLU.cholesky_backward_error_symm', 'Cv.RoundingLU.lu_backward_error', 'Cv.RoundingLU.lu_multipliers_le_one_rounded', 'Cv.FactorRounding.cholLoops_backward_error']
 NOT_PROVED = [x for x in NOT_PROVED if not any(k in str(x) for k in ('floating-point rounding of the reconstruction residuals',))]
 NOT_PROVED = NOT_PROVED + ["reconstruction residuals in floating point: PROVED in the standard model (Props/RoundingLU): |L L^T - A| <= gamma_(n+1)|L||L^T| and |L U - P A| <= gamma_n |L||U| for the computed factors; the oracle's norm-wise tolerance c n eps ||A|| additionally relies on the (unproved) growth factor"]
+
+# --- source tie, in-place mutation / nested loops / decision trees (tools/rs2lean.py mut=True: regenerated from /repo/src into
+# Generated/SrcC11Mut.lean and proved equal to the hand model in Props/SrcTieC11Mut.lean)
+from . import srctie
+srctie.wire_mut(globals(), 'C11')
